@@ -3,6 +3,7 @@ pub mod swiftness_fri {
 //@include fri/types.rs
 //@include fri/group.rs
 //@include fri/formula.rs
+//@include fri/fold_identity.rs
 //@include fri/layer.rs
 //@include fri/first_layer.rs
 //@include fri/last_layer.rs
